@@ -52,6 +52,12 @@ static const cfg_t cfgs[] = {
     { "4w U1:none + U1:D1 + U1:D2 + U1:none(after w2) | X: -", 1, 4,
       { { K_U1, D_NONE, -1 }, { K_U1, D_1, -1 }, { K_U1, D_2, -1 },
         { K_U1, D_NONE, 2 } }, K_X, { { A_END, -1 } } },
+    { "U0:none + X:D1 + U1:none | X: - (timed waiter between two untimed ULTs)", 1,
+      3, { { K_U0, D_NONE, -1 }, { K_X, D_1, -1 }, { K_U1, D_NONE, -1 } }, K_X,
+      { { A_END, -1 } } },
+    { "U1:none + U1:D1 + U1:none + U1:none(after w1) | X: sig(after w3 reg)", 1, 4,
+      { { K_U1, D_NONE, -1 }, { K_U1, D_1, -1 }, { K_U1, D_NONE, -1 },
+        { K_U1, D_NONE, 1 } }, K_X, { { A_END, -1 } } },
     { "4w X:D2 + X:D1 + X:D1 + X:none(after w2) | U0: sig(after w2)", 0, 4,
       { { K_X, D_2, -1 }, { K_X, D_1, -1 }, { K_X, D_1, -1 }, { K_X, D_NONE, 2 } },
       K_U0, { { A_SIG, 2 } } },
